@@ -113,3 +113,20 @@ def frame_check(ex, ctx, allowed, name, props):
     bad = [k for k in changed if k not in allowed]
     ex.prove('%s:%s:modifies-only-%s' % (props[0], fn(ex), '+'.join(allowed) or 'nothing'), props, not bad,
              {'changed': changed})
+
+
+def add_task(engine, out, thunk):
+    """build one task (or a list of tasks); a function under contract that no longer exists is recorded, the other
+    tasks are still built and run"""
+    from sqv.pyfront import MissingFunction
+    try:
+        t = thunk()
+    except MissingFunction as e:
+        engine.missing_functions.append(str(e.args[0]))
+        return
+    if t is None:
+        return
+    if isinstance(t, (list, tuple)):
+        out.extend(t)
+    else:
+        out.append(t)
